@@ -392,8 +392,8 @@ def report(ctx, fam, cid, lines, consts, mism_line=None):
 def plan(tier, seed):
     """(family, workers, cases each, extra args)"""
     if tier == "thorough":
-        return [("recv", 8, 40000, []), ("send", 16, 1500, []), ("sendbig", 2, 12, ["-big"]), ("bucket", 4, 30000, []),
-                ("shape", 16, 700, []), ("wall", 8, 5, [])]
+        return [("recv", 8, 30000, []), ("send", 16, 1100, []), ("sendbig", 2, 12, ["-big"]), ("bucket", 4, 30000, []),
+                ("shape", 16, 500, []), ("wall", 8, 5, [])]
     return [("recv", 4, 4000, []), ("send", 8, 180, []), ("sendbig", 1, 5, ["-big"]), ("bucket", 2, 4000, []),
             ("shape", 8, 60, []), ("wall", 3, 2, [])]
 
